@@ -292,6 +292,9 @@ def case_strategy(draw: Any, source: str) -> Dict[str, Any]:
         # application are different tasks); which of them win is not defined, so the limit is
         # kept out of reach here (C10 judges the limit on each worker separately)
         inner["limit"] = 1 << 24
+        # likewise the client's Close arriving together with its messages races with the
+        # application's echoes (how many get out before the close is the scheduler's choice)
+        inner["close_with"] = False
     elif source == "c03":
         inner = draw(c03.case_strategy(draw(st.sampled_from(["h1", "h2", "ws1", "ws2"]))))
         for a in inner["apps"]:
